@@ -365,6 +365,8 @@ def summaryPages(system: model.System) -> Iterable[Type[Page]]:
         NameIndexPage,
         UndocumentedSummaryPage,
     ]
-    if len(system.root_names) > 1:
+    if len(system.root_names) > 1 or not any(r.isVisible for r in system.rootobjects):
+        # The page of a single root module is written to index.html, unless it's hidden:
+        # in that case we still need an index page since all pages link to it.
         pages.append(IndexPage)
     return pages
